@@ -98,7 +98,8 @@ func (scb *SchemaClientBoundImpl) Retrieve(ctx context.Context, path *sdcpb.Path
 	})
 	entry.schemaRsp = schema
 	entry.err = err
-	entry.ready = true
+	// a failed retrieval must not be kept for the lifetime of the datastore, the next lookup has to retry
+	entry.ready = err == nil
 
 	return entry.Get()
 }
